@@ -16,7 +16,9 @@ import (
 	"context"
 	"errors"
 	"fmt"
+	"reflect"
 	"runtime"
+	"sort"
 	"strings"
 	"sync"
 	"sync/atomic"
@@ -80,6 +82,17 @@ type vLab struct {
 	obs     bool
 	size, w int64
 	tk      int64
+	cw      int64
+}
+
+// a consumer goroutine inside Read
+type vCons struct {
+	k        int
+	ch       chan vRd
+	returned bool
+	x        vRd
+	labelled bool // LCRead (14) already emitted (the consumer parked); its return is then an LCWake (15)
+	noted    bool
 }
 
 type vEng struct {
@@ -111,6 +124,17 @@ type vEng struct {
 	reqPtr map[int]*blockingDone
 	objIdx map[*blockingDone]int
 	reqObj map[int]int
+	// consumers parked in Read, storage faults
+	cons     []*vCons
+	nextCons int
+	hme      *sync.Cond
+	corrupt  map[int]bool
+	dropped  map[int]bool
+	ndropped int
+	popped   map[int]bool
+	lastSum  int64
+	lastOK   bool
+	next     int // index into accepted of the next request a Read must return (skipping dropped ones)
 }
 
 var vErrX = errors.New("verif consumer error")
@@ -118,7 +142,8 @@ var vErrX = errors.New("verif consumer error")
 func vNewEng(out *vOut, kind int, capacity int64, blocking, wfr, reqSizer bool) *vEng {
 	e := &vEng{out: out, kind: kind, cap: capacity, blocking: blocking, wfr: wfr, prods: map[int]*vProd{},
 		dones: map[int]Done{}, doneErr: map[int]error{}, finished: map[int]bool{}, sizes: map[int]int64{}, fired: map[string]bool{},
-		reqPtr: map[int]*blockingDone{}, objIdx: map[*blockingDone]int{}, reqObj: map[int]int{}}
+		reqPtr: map[int]*blockingDone{}, objIdx: map[*blockingDone]int{}, reqObj: map[int]int{},
+		corrupt: map[int]bool{}, dropped: map[int]bool{}}
 	var sizer request.Sizer[vReq] = vSizer{}
 	if reqSizer {
 		sizer = request.RequestsSizer[vReq]{}
@@ -126,6 +151,7 @@ func vNewEng(out *vOut, kind int, capacity int64, blocking, wfr, reqSizer bool) 
 	if kind == 0 {
 		e.mq = newMemoryQueue[vReq](memoryQueueSettings[vReq]{sizer: sizer, capacity: capacity, waitForResult: wfr, blockOnOverflow: blocking}).(*memoryQueue[vReq])
 		e.q, e.mu, e.cnd = e.mq, &e.mq.mu, e.mq.hasMoreSpace
+		e.hme = e.mq.hasMoreElements
 	} else {
 		e.wfr = false
 		e.pq = newPersistentQueue[vReq](persistentQueueSettings[vReq]{
@@ -138,6 +164,7 @@ func vNewEng(out *vOut, kind int, capacity int64, blocking, wfr, reqSizer bool) 
 		e.client = cl
 		e.pq.initClient(context.Background(), cl)
 		e.q, e.mu, e.cnd = e.pq, &e.pq.mu, e.pq.hasMoreSpace
+		e.hme = e.pq.hasMoreElements
 	}
 	return e
 }
@@ -188,7 +215,11 @@ func (e *vEng) itemIDs() []int {
 			ids = append(ids, -1)
 			continue
 		}
-		r, _ := vEnc{}.Unmarshal(b)
+		r, uerr := vEnc{}.Unmarshal(b)
+		if uerr != nil {
+			ids = append(ids, -1)
+			continue
+		}
 		ids = append(ids, r.id)
 	}
 	return ids
@@ -197,9 +228,9 @@ func (e *vEng) itemIDs() []int {
 func (e *vEng) term() string {
 	it := make([]string, len(e.labels))
 	for i, l := range e.labels {
-		o := "(" + vZ(l.res) + ", (-1)%Z, (-1)%Z, (-1)%Z)"
+		o := "(" + vZ(l.res) + ", (-1)%Z, (-1)%Z, (-1)%Z, (-1)%Z)"
 		if l.obs {
-			o = "(" + vZ(l.res) + ", " + vZ(l.size) + ", " + vZ(l.w) + ", " + vZ(l.tk) + ")"
+			o = "(" + vZ(l.res) + ", " + vZ(l.size) + ", " + vZ(l.w) + ", " + vZ(l.tk) + ", " + vZ(l.cw) + ")"
 		}
 		it[i] = "((" + vZ(l.t) + ", " + vZ(l.a) + ", " + vZ(l.b) + "), " + o + ")"
 	}
@@ -269,13 +300,268 @@ func (e *vEng) objAfter(id int) {
 
 // observe attaches the current stable snapshot to the last label.
 func (e *vEng) observe() {
+	e.consLabels()
 	if len(e.labels) == 0 {
 		return
 	}
 	s, w, t := e.snap()
 	l := &e.labels[len(e.labels)-1]
-	l.obs, l.size, l.w, l.tk = true, s, w, t
+	l.obs, l.size, l.w, l.tk, l.cw = true, s, w, t, e.cwait()
 }
+
+// ---- consumers parked in Read --------------------------------------------------------------------------
+// number of goroutines parked un-signalled in hasMoreElements.Wait(): sync.Cond.notify.{wait - notify}; Wait adds
+// itself to the list before it releases the mutex, so the value is stable while we hold the mutex
+func (e *vEng) cwait() int64 {
+	e.mu.Lock()
+	defer e.mu.Unlock()
+	nl := reflect.ValueOf(e.hme).Elem().FieldByName("notify")
+	return int64(uint32(nl.FieldByName("wait").Uint()) - uint32(nl.FieldByName("notify").Uint()))
+}
+
+func (e *vEng) liveCons() int {
+	n := 0
+	for _, c := range e.cons {
+		if !c.returned {
+			n++
+		}
+	}
+	return n
+}
+
+func (e *vEng) queued() int { return len(e.accepted) - len(e.handed) - e.ndropped }
+
+func (e *vEng) queuedCorrupt() int {
+	n := 0
+	for i := e.next; i < len(e.accepted); i++ {
+		if a := e.accepted[i]; e.corrupt[a] && !e.dropped[a] {
+			n++
+		}
+	}
+	return n
+}
+
+// noteHandoff: Read returned request id.  Unreadable items queued before it were dropped by that Read.
+func (e *vEng) noteHandoff(id int, d Done) {
+	if bd, ok := d.(*blockingDone); ok {
+		if _, have := e.reqPtr[id]; !have {
+			e.reqPtr[id] = bd
+		}
+	}
+	if p, ok := e.prods[id]; ok && !p.enq { // popped by a parked consumer before the harness saw it queued
+		p.enq = true
+		e.accepted = append(e.accepted, id)
+		e.sizes[id] = p.sz
+	}
+	exp := -1
+	for e.next < len(e.accepted) {
+		a := e.accepted[e.next]
+		if e.corrupt[a] && a != id {
+			e.dropped[a], e.finished[a] = true, true
+			e.ndropped++
+			e.next++
+			e.out.Stat("dropped_unreadable", 1)
+			continue
+		}
+		exp = a
+		break
+	}
+	e.dones[id] = d
+	e.handed = append(e.handed, id)
+	if exp != id {
+		e.oracle("handoff-not-fifo-exactly-once", fmt.Sprintf("hand-off #%d is id %d, expected %d; accepted order %v handed %v", len(e.handed)-1, id, exp, e.accepted, e.handed))
+		for i, a := range e.accepted {
+			if a == id && i >= e.next {
+				e.next = i
+			}
+		}
+	}
+	e.next++
+}
+
+// a consumer parked although the harness still counts requests as queued: they must all be unreadable (dropped)
+func (e *vEng) noteParked(before map[int]bool) {
+	for e.next < len(e.accepted) {
+		a := e.accepted[e.next]
+		if !before[a] {
+			return // enqueued after the consumer parked
+		}
+		if !e.corrupt[a] {
+			e.oracle("consumer-parked-while-request-queued", fmt.Sprintf("kind=%s request %d is queued and readable, %d consumer(s) parked", e.kindName(), a, e.liveCons()))
+			return
+		}
+		e.dropped[a], e.finished[a] = true, true
+		e.ndropped++
+		e.next++
+		e.out.Stat("dropped_unreadable", 1)
+	}
+}
+
+func (e *vEng) collectCons() {
+	var got []*vCons
+	for _, c := range e.cons {
+		if !c.returned {
+			select {
+			case x := <-c.ch:
+				c.returned, c.x = true, x
+				if x.ok {
+					got = append(got, c)
+				}
+			default:
+			}
+		}
+	}
+	// requests popped before the harness saw them queued: request ids grow with the order of the enqueues
+	sort.SliceStable(got, func(i, j int) bool { return got[i].x.r.id < got[j].x.r.id })
+	for _, c := range got {
+		x := c.x
+		if e.popped == nil {
+			e.popped = map[int]bool{}
+		}
+		if pr, ok := e.prods[x.r.id]; ok && !pr.enq {
+			// it was at the head of the queue: ahead of everything the harness still sees queued
+			pr.enq = true
+			i := e.next
+			for i < len(e.accepted) && e.popped[e.accepted[i]] {
+				i++
+			}
+			e.accepted = append(e.accepted, 0)
+			copy(e.accepted[i+1:], e.accepted[i:])
+			e.accepted[i] = x.r.id
+			e.sizes[x.r.id] = pr.sz
+		}
+		e.popped[x.r.id] = true
+		if bd, ok := x.done.(*blockingDone); ok {
+			if _, have := e.reqPtr[x.r.id]; !have {
+				e.reqPtr[x.r.id] = bd
+			}
+		}
+	}
+}
+
+// labels (and bookkeeping) for the consumers whose Read has returned since the last call, in hand-off order
+func (e *vEng) consLabels() {
+	var batch []*vCons
+	for _, c := range e.cons {
+		if c.returned && !c.noted {
+			batch = append(batch, c)
+		}
+	}
+	sort.SliceStable(batch, func(i, j int) bool {
+		a, b := batch[i], batch[j]
+		if a.x.ok != b.x.ok {
+			return a.x.ok
+		}
+		return a.x.ok && a.x.r.id < b.x.r.id
+	})
+	for _, c := range batch {
+		c.noted = true
+		tag := int64(15)
+		if !c.labelled {
+			tag = 14
+		}
+		if c.x.ok {
+			e.noteHandoff(c.x.r.id, c.x.done)
+			e.lab(tag, int64(c.k), 0, 10+int64(c.x.r.id))
+		} else {
+			e.lab(tag, int64(c.k), 0, 7)
+			if !e.stopped {
+				e.oracle("read-closed-while-running", fmt.Sprintf("consumer %d", c.k))
+			}
+		}
+	}
+	live := e.cons[:0]
+	for _, c := range e.cons {
+		if !c.noted {
+			live = append(live, c)
+		}
+	}
+	e.cons = live
+}
+
+// opCRead: a consumer calls Read and may park (label 14)
+func (e *vEng) opCRead() {
+	if e.dead {
+		return
+	}
+	n0, enq0 := e.selCounts(), e.enqSet()
+	c := &vCons{k: e.nextCons, ch: make(chan vRd, 1)}
+	e.nextCons++
+	e.cons = append(e.cons, c)
+	go func() {
+		_, r, d, ok := e.q.Read(context.Background())
+		c.ch <- vRd{r, d, ok}
+	}()
+	if !e.settle(2 * time.Second) {
+		e.lab(14, int64(c.k), 0, -1)
+		e.unstable("consumer read")
+		return
+	}
+	if c.returned && c.x.ok && !enq0[c.x.r.id] {
+		// the consumer dropped every queued (unreadable) item, re-synced the size, signalled a blocked producer and
+		// parked; that producer enqueued and woke the consumer again, which returned the new request
+		e.noteParked(enq0)
+		e.lab(14, int64(c.k), 0, 30)
+		c.labelled = true
+		// first the producer whose request this consumer got (its enqueue woke the consumer), then the consumer's
+		// return (which may re-sync the size and signal again), then whoever was woken after that
+		var rest []*vProd
+		for _, pr := range e.newlyEnq(enq0) {
+			if pr.id == c.x.r.id {
+				e.lab(1, int64(pr.id), 0, 0)
+				e.objBefore(pr.id)
+				e.lab(3, int64(pr.id), 0, 0)
+				e.objAfter(pr.id)
+			} else {
+				rest = append(rest, pr)
+			}
+		}
+		e.consLabels()
+		e.wakeLabels(n0, rest)
+		e.out.Stat("consumer_parked_then_served", 1)
+	} else if c.returned {
+		e.consLabels() // label 14 with what it returned
+		e.wakeLabels(n0, e.newlyEnq(enq0))
+	} else {
+		e.noteParked(enq0)
+		e.lab(14, int64(c.k), 0, 30)
+		c.labelled = true
+		e.wakeLabels(n0, e.newlyEnq(enq0)) // persistent queue: dropping the last item re-syncs the size and signals
+		e.nontriv = true
+		e.out.Stat("consumer_parked", 1)
+	}
+	e.observe()
+	e.stableOracle()
+}
+
+// opCorrupt: the stored copy of a queued request of the persistent queue becomes unreadable
+func (e *vEng) opCorrupt(id int) {
+	if e.dead || e.kind != 1 || e.stopped {
+		return
+	}
+	e.mu.Lock()
+	found := false
+	for i := e.pq.readIndex; i != e.pq.writeIndex; i++ {
+		b, err := e.client.Get(context.Background(), getItemKey(i))
+		if err != nil || b == nil {
+			continue
+		}
+		if r, uerr := (vEnc{}).Unmarshal(b); uerr == nil && r.id == id {
+			_ = e.client.Set(context.Background(), getItemKey(i), []byte("unreadable"))
+			found = true
+		}
+	}
+	e.mu.Unlock()
+	if !found {
+		return
+	}
+	e.corrupt[id] = true
+	e.lab(16, int64(id), 0, 0)
+	e.observe()
+	e.out.Stat("corrupted", 1)
+}
+
+
 
 func (e *vEng) collect() {
 	for _, id := range e.order {
@@ -321,10 +607,14 @@ func (e *vEng) settle(limit time.Duration) bool {
 	dl := time.Now().Add(limit)
 	for i := 0; ; i++ {
 		e.collect() // first the results, then the queue contents: a producer seen returned has its request visible
+		e.collectCons()
 		e.refreshEnq()
 		_, w, tk := e.snap()
 		ws := e.waiters()
 		ok := tk == 0 && w == int64(len(ws))
+		if int64(e.liveCons()) != e.cwait() { // a consumer is running: it was signalled, or has not parked yet
+			ok = false
+		}
 		for _, p := range ws {
 			if p.cancelled || p.ctx.n.Load() == 0 {
 				ok = false
@@ -336,7 +626,24 @@ func (e *vEng) settle(limit time.Duration) bool {
 				ok = false
 			}
 		}
+		if !ok {
+			e.lastOK = false
+		}
+		if ok && len(ws) > 0 {
+			// cond.Wait does waiting++ BEFORE it evaluates ctx.Done() (which is what tells the harness that a woken
+			// producer re-entered the select): look twice, a moment apart, and require the counters to stand still
+			sum := int64(0)
+			for _, p := range ws {
+				sum += p.ctx.n.Load()
+			}
+			if sum != e.lastSum || !e.lastOK {
+				e.lastSum, e.lastOK = sum, true
+				ok = false
+				time.Sleep(150 * time.Microsecond)
+			}
+		}
 		if ok {
+			e.lastOK = false
 			return true
 		}
 		if time.Now().After(dl) {
@@ -573,6 +880,16 @@ func (e *vEng) newlyEnq(before map[int]bool) []*vProd {
 	return nw
 }
 
+// readOp: a Read that is known to return; with unreadable items queued it must be an identified consumer's Read
+// (the model's anonymous LRead is the fault-free section)
+func (e *vEng) readOp() {
+	if e.queuedCorrupt() > 0 {
+		e.opCRead()
+	} else {
+		e.opRead()
+	}
+}
+
 type vRd struct {
 	r    vReq
 	done Done
@@ -596,7 +913,7 @@ func (e *vEng) opRead() {
 		e.lab(6, 0, 0, -1)
 		e.dead = true
 		vDeadCount++
-		e.oracle("read-does-not-return", fmt.Sprintf("kind=%s items=%d stopped=%v", e.kindName(), len(e.accepted)-len(e.handed), e.stopped))
+		e.oracle("read-does-not-return", fmt.Sprintf("kind=%s items=%d stopped=%v", e.kindName(), e.queued(), e.stopped))
 		return
 	}
 	if !x.ok {
@@ -607,12 +924,7 @@ func (e *vEng) opRead() {
 		}
 		return
 	}
-	e.dones[x.r.id] = x.done
-	e.handed = append(e.handed, x.r.id)
-	k := len(e.handed) - 1
-	if k >= len(e.accepted) || e.accepted[k] != x.r.id {
-		e.oracle("handoff-not-fifo-exactly-once", fmt.Sprintf("hand-off #%d is id %d; accepted order %v handed %v", k, x.r.id, e.accepted, e.handed))
-	}
+	e.noteHandoff(x.r.id, x.done)
 	if !e.settle(2 * time.Second) {
 		e.lab(6, 0, 0, 10+int64(x.r.id))
 		e.unstable("read")
@@ -720,10 +1032,22 @@ func (e *vEng) opShutdown() {
 	if e.dead || e.stopped {
 		return
 	}
+	nPark := e.liveCons()
 	_ = e.q.Shutdown(context.Background())
 	e.stopped = true
+	if !e.settle(2 * time.Second) {
+		e.lab(10, 0, 0, 0)
+		if e.liveCons() > 0 {
+			e.oracle("consumer-parked-after-shutdown", fmt.Sprintf("kind=%s parked_before=%d still_parked=%d", e.kindName(), nPark, e.liveCons()))
+		}
+		e.unstable("shutdown")
+		return
+	}
 	e.lab(10, 0, 0, 0)
-	e.observe()
+	e.observe() // emits an LCWake (15, result 7) for every consumer that was parked
+	if e.liveCons() > 0 {
+		e.oracle("consumer-parked-after-shutdown", fmt.Sprintf("kind=%s parked_before=%d still_parked=%d", e.kindName(), nPark, e.liveCons()))
+	}
 }
 
 func (e *vEng) inflightIDs() []int {
@@ -746,6 +1070,9 @@ func (e *vEng) finish() {
 		if p.started && !p.returned && !p.cancelled {
 			e.opCancel(p)
 		}
+	}
+	if e.liveCons() > 0 && !e.dead {
+		e.opShutdown()
 	}
 }
 
@@ -795,7 +1122,7 @@ func vScript(out *vOut, rng *vRand, kind int, blocking, wfr bool) {
 	// a persistent queue with block_on_overflow never returns from an oversized Offer (S1): keep such cases rare
 	allowOver := !(kind == 1 && blocking) || rng.Intn(12) == 0
 	for k := 0; k < nops && !e.dead; k++ {
-		items := len(e.accepted) - len(e.handed)
+		items := e.queued()
 		infl := e.inflightIDs()
 		ws := e.waiters()
 		wOffer, wRead, wDone, wCancel, wShut := 40, 25, 25, 4, 1
@@ -819,7 +1146,35 @@ func vScript(out *vOut, rng *vRand, kind int, blocking, wfr bool) {
 		if kind == 1 && len(ws) > 0 {
 			wShut = 0 // a producer woken after the storage client was closed makes the MOCK storage panic
 		}
-		switch rng.Pick(wOffer, wRead, wDone, wCancel, wShut) {
+		wPark, wCorrupt := 0, 0
+		if !blocking && !e.stopped && e.liveCons() < 3 {
+			if items == 0 {
+				wPark = 7 // a consumer arrives at an empty queue and parks in hasMoreElements.Wait()
+			} else if items == e.queuedCorrupt() {
+				wRead = 6 // every queued item is unreadable: the Read drops them all and parks
+			}
+		} else if items > 0 && items == e.queuedCorrupt() && !e.stopped {
+			wRead = 0
+		}
+		if kind == 1 && !blocking && !e.stopped && items-e.queuedCorrupt() > 0 {
+			wCorrupt = 5
+		}
+		switch rng.Pick(wOffer, wRead, wDone, wCancel, wShut, wPark, wCorrupt) {
+		case 5:
+			e.opCRead()
+		case 6:
+			var good []int
+			for i := e.next; i < len(e.accepted); i++ {
+				if a := e.accepted[i]; !e.corrupt[a] {
+					good = append(good, a)
+				}
+			}
+			// the LAST queued item matters most (the size is re-synced when the queue runs empty)
+			id := good[len(good)-1]
+			if rng.Intn(2) == 0 {
+				id = good[rng.Intn(len(good))]
+			}
+			e.opCorrupt(id)
 		case 0:
 			p := e.newProd(next, vPickSize(rng, capacity, reqSizer, kind == 0, allowOver))
 			next++
@@ -828,7 +1183,7 @@ func vScript(out *vOut, rng *vRand, kind int, blocking, wfr bool) {
 			}
 			e.opOffer(p)
 		case 1:
-			e.opRead()
+			e.readOp()
 		case 2:
 			cls := int64(rng.Pick(6, 3, 1))
 			if kind == 0 && cls == 2 {
@@ -856,8 +1211,8 @@ func vScript(out *vOut, rng *vRand, kind int, blocking, wfr bool) {
 	// drain: the size must come back to zero once everything accepted has finished
 	if !e.dead && rng.Intn(2) == 0 && !(e.stopped && kind == 1) {
 		for guard := 0; guard < 200 && !e.dead; guard++ {
-			if len(e.accepted) > len(e.handed) {
-				e.opRead()
+			if e.queued() > 0 && (e.queued() > e.queuedCorrupt() || (!blocking && e.liveCons() < 3)) {
+				e.readOp()
 			} else if infl := e.inflightIDs(); len(infl) > 0 {
 				e.opDone(infl[0], 0)
 			} else {
@@ -906,6 +1261,154 @@ func TestVerifC02(t *testing.T) {
 	for c := 0; c < n4 && vDeadCount < 40; c++ {
 		vBcast(out, rng, c)
 	}
+	// (5) consumers parked in Read and enqueues lined up on the queue mutex (the consumer side of "no lost wake-up")
+	n5 := vBudget(90, 10)
+	for c := 0; c < n5 && vDeadCount < 40; c++ {
+		vForcedEnq(out, rng, c)
+	}
+	// (6) persistent queue: unreadable stored items in front of a blocked producer
+	n6 := vBudget(60, 10)
+	for c := 0; c < n6 && vDeadCount < 40; c++ {
+		vFaultBlocked(out, rng, c)
+	}
+}
+
+// ---- consumers parked in Read, enqueues back to back ---------------------------------------------------
+// m consumers park in Read on the empty queue; the harness holds the queue mutex while n Offers line up on it (each
+// arrival awaited through the mutex's waiter count), then lets go: the n critical sections of add/putInternal run
+// back to back BEFORE any woken consumer gets the mutex.  Every enqueue must signal a consumer of its own.
+func vForcedEnq(out *vOut, rng *vRand, c int) {
+	kind := rng.Intn(2)
+	wfr := kind == 0 && rng.Intn(4) == 0
+	m := 1 + rng.Intn(3)
+	n := 1 + rng.Intn(3)
+	if kind == 1 && n > m {
+		// persistent queue: the size reset when the queue runs empty would make the exact interleaving observable;
+		// with n <= m the final state is the same whether or not a consumer slips in between two enqueues
+		n = m
+	}
+	capacity := int64(n + rng.Intn(3))
+	e := vNewEng(out, kind, capacity, false, wfr, false)
+	e.nontriv = true
+	for i := 0; i < m; i++ {
+		e.opCRead()
+	}
+	if e.dead {
+		e.emit()
+		return
+	}
+	var ps []*vProd
+	e.mu.Lock()
+	for i := 0; i < n; i++ {
+		p := e.newProd(i, 1)
+		p.started = true
+		ps = append(ps, p)
+		go func() { p.res <- e.q.Offer(p.ctx, vReq{id: p.id, sz: p.sz}) }()
+		want := int32(i + 1)
+		for dl := time.Now().Add(5 * time.Second); vMutexWaiters(e.mu) < want && time.Now().Before(dl); {
+			time.Sleep(50 * time.Microsecond)
+		}
+		if vMutexWaiters(e.mu) != want {
+			out.Stat("forced_lineup_failed", 1)
+		}
+		time.Sleep(1500 * time.Microsecond)
+	}
+	e.mu.Unlock()
+	stable := e.settle(3 * time.Second)
+	for _, p := range ps {
+		res := int64(0)
+		if wfr {
+			res = 5
+		}
+		if !p.enq {
+			res = -1
+		}
+		e.objBefore(p.id)
+		e.lab(0, int64(p.id), p.sz, res)
+		e.objAfter(p.id)
+	}
+	if !stable {
+		e.unstable("forced enqueue")
+		e.emit()
+		return
+	}
+	e.observe() // the consumers' returns (LCWake), in hand-off order
+	served := n
+	if m < n {
+		served = m
+	}
+	if len(e.handed) != served {
+		e.oracle("consumer-parked-while-request-queued", fmt.Sprintf("kind=%s consumers=%d enqueues=%d handed=%d still_parked=%d", e.kindName(), m, n, len(e.handed), e.liveCons()))
+	}
+	e.stableOracle()
+	out.Stat(fmt.Sprintf("forced_enq_m%d_n%d", m, n), 1)
+	// the hand-offs stay in flight for a while: more enqueues, then completions
+	for i := 0; i < 1+rng.Intn(3) && !e.dead; i++ {
+		e.opOffer(e.newProd(100+i, 1))
+	}
+	for guard := 0; guard < 40 && !e.dead; guard++ {
+		if infl := e.inflightIDs(); len(infl) > 0 {
+			e.opDone(infl[0], 0)
+		} else if e.queued() > 0 {
+			e.opRead()
+		} else {
+			break
+		}
+	}
+	e.finish()
+	e.emit()
+}
+
+// ---- persistent queue: unreadable items, a producer blocked behind them ------------------------------------
+func vFaultBlocked(out *vOut, rng *vRand, c int) {
+	capacity := int64(2 + rng.Intn(4))
+	blocking := rng.Intn(3) != 0
+	e := vNewEng(out, 1, capacity, blocking, false, false)
+	e.nontriv = true
+	next := 0
+	for i := 0; i < int(capacity); i++ {
+		e.opOffer(e.newProd(next, 1))
+		next++
+	}
+	// which stored copies become unreadable: always the last one or all of them, sometimes others too
+	for i := 0; i < int(capacity); i++ {
+		last := i == int(capacity)-1
+		if (last && rng.Intn(4) != 0) || (!last && rng.Intn(3) == 0) {
+			e.opCorrupt(i)
+		}
+	}
+	nblocked := 0
+	if blocking {
+		nblocked = rng.Intn(3)
+	}
+	for i := 0; i < nblocked; i++ {
+		e.opOffer(e.newProd(next, 1+int64(rng.Intn(int(capacity)))))
+		next++
+	}
+	if !blocking {
+		e.opOffer(e.newProd(next, 1)) // refused: the queue is full
+		next++
+	}
+	for guard := 0; guard < 60 && !e.dead; guard++ {
+		good := e.queued() - e.queuedCorrupt()
+		switch {
+		case good > 0:
+			e.readOp()
+		case e.queued() > 0 && e.liveCons() == 0:
+			e.opCRead() // only unreadable items left: dropped, size re-synced, blocked producers signalled
+		case len(e.inflightIDs()) > 0 && rng.Intn(3) != 0:
+			e.opDone(e.inflightIDs()[0], 0)
+		case guard < 50 && rng.Intn(3) == 0 && len(e.waiters()) == 0 && e.liveCons() == 0:
+			e.opOffer(e.newProd(next, 1+int64(rng.Intn(int(capacity)))))
+			next++
+		case len(e.inflightIDs()) > 0:
+			e.opDone(e.inflightIDs()[0], 0)
+		default:
+			guard = 60
+		}
+	}
+	e.finish()
+	e.emit()
 }
 
 // ---- cond.Broadcast -----------------------------------------------------------------------------------
@@ -997,7 +1500,7 @@ func vBcast(out *vOut, rng *vRand, c int) {
 		e.opBroadcast()
 	}
 	for guard := 0; guard < 60 && !e.dead; guard++ {
-		if len(e.accepted) > len(e.handed) {
+		if e.queued() > 0 {
 			e.opRead()
 		} else if infl := e.inflightIDs(); len(infl) > 0 {
 			e.opDone(infl[0], 0)
@@ -1232,7 +1735,7 @@ func vForced(out *vOut, rng *vRand, c int) {
 		out.Stat("forced_completed", 1)
 		// drain
 		for guard := 0; guard < 50 && !e.dead; guard++ {
-			if len(e.accepted) > len(e.handed) {
+			if e.queued() > 0 {
 				e.opRead()
 			} else if in2 := e.inflightIDs(); len(in2) > 0 {
 				e.opDone(in2[0], 0)
@@ -1282,7 +1785,7 @@ func vForced(out *vOut, rng *vRand, c int) {
 	}
 	if len(e.labels) > 0 {
 		l := &e.labels[len(e.labels)-1]
-		l.obs, l.size, l.w, l.tk = true, -1, -1, int64(len(e.cnd.ch))
+		l.obs, l.size, l.w, l.tk, l.cw = true, -1, -1, int64(len(e.cnd.ch)), -1
 	}
 	e.collect()
 	notRet := 0
